@@ -99,6 +99,10 @@ GLOBAL_RULES = [
     # N8: Option::map_or with the Poll constructors as function values (Verus: "datatype constructor as a function value")
     # N5: core::task::ready!(E) is `match E { Poll::Ready(t) => t, Poll::Pending => return Poll::Pending }` (its definition)
     ('G_N5_ready_macro', lambda body: _g_ready(body), None),
+    # P5: a temporary guard `self.wakers.readiness().m(args);` = lock; m; unlock (left over when a unit has no own rule)
+    ('G_P5_temp_guard', r'self\.wakers\.readiness\(\)\.(\w+)\(([^;]*?)\);', r'self.wakers.lock(); self.wakers.\1(\2); self.wakers.unlock();'),
+    # a waker invocation that is not the P10-ported parent wake of the waker units (e.g. a self-wake `cx.waker().wake_by_ref()`)
+    ('G_wake_by_ref_plain', r'\.wake_by_ref\(\)', r'.wake_by_ref_plain()'),
     ('G_N8_map_or_poll', r'\b(\w+)\.map_or\(\s*Poll::Pending\s*,\s*Poll::Ready\s*\)', r'(match \1 { Some(v_) => Poll::Ready(v_), None => Poll::Pending })'),
 ]
 
